@@ -31,6 +31,16 @@ Definition h_safe_trace (a : list sx) : sx :=
   | _ => err "arity"
   end.
 
+Definition h_safe_trace_sym (a : list sx) : sx :=
+  match a with
+  | [refs; tr] =>
+    match as_list_of as_bytes refs, as_list_of as_call tr with
+    | Some refs, Some tr => sbool (check_safe_trace_sym refs tr)
+    | _, _ => err "args"
+    end
+  | _ => err "arity"
+  end.
+
 Definition h_no_write (a : list sx) : sx :=
   match a with
   | [tr] => match as_list_of as_call tr with Some tr => sbool (check_no_write tr) | None => err "args" end
@@ -125,4 +135,4 @@ Definition h_append_rel (a : list sx) : sx :=
 Definition table : list (string * handler) :=
   [("safe_trace", h_safe_trace); ("no_write", h_no_write); ("fs_run", h_fs_run);
    ("append_seq", h_append_seq); ("part_id", h_part_id); ("find_max_part", h_find_max_part);
-   ("append_trace", h_append_trace); ("read_cat", h_read_cat); ("append_rel", h_append_rel)].
+   ("append_trace", h_append_trace); ("read_cat", h_read_cat); ("append_rel", h_append_rel); ("safe_trace_sym", h_safe_trace_sym)].
